@@ -1,19 +1,20 @@
 /-
 T1 tie (DESIGN.md 1.3) of the carry-less multiplication leaves `ot.clmul64`,
 `ot.mul128Generic` (ot/mul128_generic.go) to the C15 model Model/Clmul.lean:
-the definitions of MpcVerif/Gen/Leaf.lean, regenerated from the current Go
+the definitions of MpcVerif/Gen/LeafC15.lean, regenerated from the current Go
 source by `gofacts translate` on every run of checks/t1.py, equal
 `Mpc.Clmul.clmul64` / `Mpc.Clmul.mul128Generic`.  Core Lean only.
 -/
-import MpcVerif.Proofs.GenTie
+import MpcVerif.Gen.LeafC15
+import MpcVerif.Proofs.GenTieLib
 import MpcVerif.Model.Clmul
 
 namespace Mpc.GenTie
-open Mpc Mpc.Gen
+open Mpc Mpc.Gen Mpc.Gen.C15
 
 
-theorem tie_clmul64 (a b : BitVec 64) : Gen.clmul64 a b = Mpc.Clmul.clmul64 a b := by
-  rw [Gen.clmul64]; dsimp only
+theorem tie_clmul64 (a b : BitVec 64) : Gen.C15.clmul64 a b = Mpc.Clmul.clmul64 a b := by
+  rw [Gen.C15.clmul64]; dsimp only
   rw [foldl_range_eq _ (Mpc.Clmul.clmulLoop a b) 64 (0#64, 0#64) rfl]
   · rfl
   · intro k hk
@@ -31,14 +32,20 @@ theorem tie_clmul64 (a b : BitVec 64) : Gen.clmul64 a b = Mpc.Clmul.clmul64 a b 
     cases hb : b.getLsbD k <;> by_cases h2 : k = 0 <;> simp [h2, h64]
 
 theorem tie_mul128Generic (a b : Gen.Label) :
-    (joinL (Gen.mul128Generic a b).1, joinL (Gen.mul128Generic a b).2) =
+    (joinL (Gen.C15.mul128Generic a b).1, joinL (Gen.C15.mul128Generic a b).2) =
       Mpc.Clmul.mul128Generic (joinL a) (joinL b) := by
   have hd0 : ∀ l : Gen.Label, Mpc.Clmul.d0 (joinL l) = l.1 := fun l => hi64_join l.1 l.2
   have hd1 : ∀ l : Gen.Label, Mpc.Clmul.d1 (joinL l) = l.2 := fun l => lo64_join l.1 l.2
-  simp only [Gen.mul128Generic, Mpc.Clmul.mul128Generic, tie_clmul64, hd0, hd1, Mpc.Clmul.ofD, append_eq_join,
-    Label.Xor, BitVec.xor_zero, BitVec.zero_xor, joinL] <;>
-    (refine Prod.ext ?_ ?_ <;> dsimp only <;> join_ac)
+  first
+    | -- a source that calls `Label.Xor` (the callee is then part of this group's generated file)
+      (simp only [Gen.C15.mul128Generic, Mpc.Clmul.mul128Generic, tie_clmul64, hd0, hd1, Mpc.Clmul.ofD, append_eq_join,
+        Label.Xor, BitVec.xor_zero, BitVec.zero_xor, joinL] <;>
+        (refine Prod.ext ?_ ?_ <;> dsimp only <;> join_ac))
+    | -- the current source: word operations only
+      (simp only [Gen.C15.mul128Generic, Mpc.Clmul.mul128Generic, tie_clmul64, hd0, hd1, Mpc.Clmul.ofD, append_eq_join,
+        BitVec.xor_zero, BitVec.zero_xor, joinL] <;>
+        (refine Prod.ext ?_ ?_ <;> dsimp only <;> join_ac))
 
-example : Gen.clmul64 3#64 3#64 = (5#64, 0#64) := by decide
+example : Gen.C15.clmul64 3#64 3#64 = (5#64, 0#64) := by decide
 
 end Mpc.GenTie
